@@ -282,16 +282,19 @@ def chunks(seq, n):
 # ---- finishing ---------------------------------------------------------------------------------
 def finish(ctx: Ctx, *, level: str, rule: str, assumptions, t0: float, extra=None) -> int:
     pid = ctx.pid
-    os.makedirs(os.path.join(VERIF, "evidence"), exist_ok=True)
+    alt = os.environ.get("VF_EVIDENCE_DIR")      # self-test runs against mutated copies must not touch the real evidence
+    ev_dir = alt or os.path.join(VERIF, "evidence")
+    rp_dir = os.path.join(alt, "replays") if alt else os.path.join(VERIF, "replays")
+    os.makedirs(ev_dir, exist_ok=True)
     violations = []
     for bucket, info in sorted(ctx.found.items()):
-        d = os.path.join(VERIF, "replays", pid)
+        d = os.path.join(rp_dir, pid)
         os.makedirs(d, exist_ok=True)
         path = os.path.join(d, "%016x.json" % h64(bucket))
         with open(path, "w") as f:
             json.dump({"property": pid, "bucket": bucket, "what": info["what"], "case": info["case"],
                        "seed": ctx.seed, "tier": ctx.tier}, f, indent=1, sort_keys=True)
-        violations.append((bucket, info["what"], os.path.relpath(path, VERIF)))
+        violations.append((bucket, info["what"], os.path.relpath(path, VERIF) if not alt else path))
     distinct = len(ctx.nontrivial) + ctx.nontrivial_extra
     coverage = {
         "evaluations": int(ctx.evaluations),
@@ -317,7 +320,7 @@ def finish(ctx: Ctx, *, level: str, rule: str, assumptions, t0: float, extra=Non
         "assumptions": list(assumptions), "wall_s": round(time.time() - t0, 2),
         "violations": len(violations),
     }
-    with open(os.path.join(VERIF, "evidence", pid + ".json"), "w") as f:
+    with open(os.path.join(ev_dir, pid + ".json"), "w") as f:
         json.dump(ev, f, indent=1, sort_keys=True, default=repr)
     for bucket, what in sorted(ctx.known_open.items()):
         hits = sum(n for b, n in ctx.excluded_known.items() if b == bucket or fnmatch.fnmatchcase(b, bucket))
